@@ -76,6 +76,7 @@ mutual
       | .exit n => afterSimple ctx s (.break_ (.exit n))
       | .setE on => afterSimple ctx { s with errexit := on, status := 0 } .continue_
       | .setM on => afterSimple ctx { s with monitor := on, status := 0 } .continue_
+      | .setP on => afterSimple ctx { s with pipefail := on, status := 0 } .continue_
       | .unknown => afterSimple ctx { s with status := 127 } .continue_
       | .absent w r a =>
         afterSimple ctx { s with status := (a.orElse fun _ => r.orElse fun _ => w).getD 0 } .continue_
